@@ -16,7 +16,9 @@ import (
 	"syscall"
 
 	"github.com/whoisnian/glb/util/osutil"
+	"verif/engine/sdrive"
 	"verif/engine/shim/vos"
+	"verif/engine/shim/vsched"
 	"verif/engine/vcommon"
 )
 
@@ -314,8 +316,84 @@ func scenarios() []scenario {
 	return out
 }
 
+// sCopy: CopyFile / MoveFile of one file under the controlled scheduler. The unchanged code copies
+// on the calling goroutine (one execution per scenario); an implementation that reads ahead on a
+// goroutine of its own, hands chunks over channels or selects between a data and an end-of-file
+// channel is explored through every interleaving and every choice of a ready select case.
+func sCopy(size int, move bool) func(c *vsched.Ctx) {
+	return func(c *vsched.Ctx) {
+		dir, err := os.MkdirTemp("", "c18s")
+		if err != nil {
+			vsched.Fail("INFRA: " + err.Error())
+			return
+		}
+		defer os.RemoveAll(dir)
+		content := make([]byte, size)
+		for i := range content {
+			content[i] = byte(i*7 + i>>8)
+		}
+		src, dst := filepath.Join(dir, "src"), filepath.Join(dir, "dst")
+		os.WriteFile(src, content, 0o644)
+		os.WriteFile(dst, []byte("old destination content"), 0o644)
+		vos.Reset()
+		var n int64 = -1
+		if move {
+			// the rename fails with EXDEV: the copy fallback runs. Which numbered call the rename is
+			// is learnt from a dry move of a scratch pair.
+			s2, d2 := filepath.Join(dir, "src2"), filepath.Join(dir, "dst2")
+			os.WriteFile(s2, []byte("x"), 0o644)
+			osutil.MoveFile(s2, d2)
+			at := 0
+			for i, l := range vos.Log {
+				if strings.Contains(l, "rename") {
+					at = i + 1
+					break
+				}
+			}
+			vos.Reset()
+			if at > 0 {
+				vos.FailAt = map[int]vos.Fault{at: {Err: syscall.EXDEV}}
+			}
+			err = osutil.MoveFile(src, dst)
+		} else {
+			n, err = osutil.CopyFile(src, dst)
+		}
+		vos.Reset()
+		got, _ := os.ReadFile(dst)
+		_, srcErr := os.Stat(src)
+		what := "CopyFile"
+		if move {
+			what = "MoveFile (rename refused with EXDEV)"
+		}
+		switch {
+		case err == nil && !bytes.Equal(got, content):
+			vsched.Fail(fmt.Sprintf("C18: %s of %d bytes returned nil (n=%d) but the destination holds %d bytes, not the source's content", what, size, n, len(got)))
+		case err == nil && !move && n != int64(size):
+			vsched.Fail(fmt.Sprintf("C18: CopyFile of %d bytes returned (%d, nil)", size, n))
+		case err != nil && srcErr != nil:
+			vsched.Fail(fmt.Sprintf("C18: %s failed (%v) and the source is gone", what, err))
+		case err == nil && move && srcErr == nil:
+			vsched.Fail("C18: MoveFile returned nil and the source is still there")
+		}
+		c.Outcome(fmt.Sprintf("err=%v", err != nil))
+	}
+}
+
 func main() {
 	flag.Parse()
+	var scens []sdrive.Scenario
+	for _, sz := range []int{1, 40000, 300000, 1<<20 + 5} {
+		for _, mv := range []bool{false, true} {
+			name := fmt.Sprintf("S-copy-%d", sz)
+			if mv {
+				name = fmt.Sprintf("S-move-%d", sz)
+			}
+			scens = append(scens, sdrive.Scenario{Name: name, Props: []string{"C18"}, About: "one copy / cross-device move of a file of this size under the controlled scheduler: every interleaving of whatever goroutines the implementation uses",
+				Quick: sdrive.Plan{Bounds: []int{0, 1, 2}}, Thorough: sdrive.Plan{Bounds: []int{0, 1, 2, 3, -1}}, Body: sCopy(sz, mv), MinOutcomes: 1, AllowRace: true})
+		}
+	}
+	sdrive.Budget = 0.3
+	scov, sviols := sdrive.Collect(scens)
 	base, err := vcommon.TempDir("", "c18")
 	if err != nil {
 		vcommon.Infra("%v", err)
@@ -330,7 +408,7 @@ func main() {
 		}
 		defer os.RemoveAll(d)
 	}
-	var viols []vcommon.Violation
+	viols := sviols
 	evals, nScen, nFaultRuns := 0, 0, 0
 	labels := map[string]int{}
 	var sample []any
@@ -394,7 +472,7 @@ func main() {
 		Coverage: map[string]any{
 			"evaluations": evals, "distinct_nontrivial": nFaultRuns,
 			"rule":       "scenarios = {CopyFile, MoveFile} x size {0, 1, 32KiB+1, 3MiB} x destination {absent, existing, directory} x parent {ok, missing, regular file} x source {present, missing} x alias {none, same path, ./-spelling, symlink, hard link} (+ MoveFile across two real file systems, or with EXDEV injected); each is run fault-free and then with every single numbered file-system call failing (copies also stopping after 1 byte and after half the file), plus every further call revealed by a fault (and every pair in thorough); byte-level snapshots before/after judge; non-trivial = runs with an injected fault",
-			"exhaustive": true, "scenarios": nScen, "fault_runs": nFaultRuns, "outcomes": labels, "real_cross_device": otherFS != "", "samples": sample,
+			"exhaustive": true, "scenarios": nScen, "fault_runs": nFaultRuns, "outcomes": labels, "real_cross_device": otherFS != "", "samples": sample, "copy_under_scheduler": scov,
 		},
 		Assumptions: []string{"faults are injected at the os/io calls of util/osutil (open, create, copy, rename, remove, stat) through the vos seam; *os.File method calls (Close) are not failed", "power-loss crash consistency is not part of the statement and not explored"}})
 	os.Exit(code)
